@@ -96,16 +96,18 @@ inline bool degenerate_faces(const Snap &s) {
         for (int h : s.F[f]) if (std::find(s.F[f].begin(), s.F[f].end(), h ^ 1) != s.F[f].end()) return true; }
     return false;
 }
-inline bool valid_for_c01(const Snap &s) {
-    if (!history_in_contract()) return false;
-    if (!state_valid_for_c01(s)) { history_in_contract() = false; return false; }
-    return !degenerate_faces(s);
-}
 // in contract, degenerate faces allowed: for the oracles that compare definitions / identities and never count multiplicities
-inline bool in_contract(const Snap &s) {
-    if (!history_in_contract()) return false;
-    if (!state_valid_for_c01(s)) { history_in_contract() = false; return false; }
-    return true;
+inline bool in_contract(const Snap &s) { return history_in_contract() && state_valid_for_c01(s); }
+inline bool valid_for_c01(const Snap &s) { return in_contract(s) && !degenerate_faces(s); }
+// called AFTER the oracles of a step: only an operation that takes definitions from the caller (add_* / set_*) can legitimately
+// lead out of the contract; an invalid state after a deletion, swap, collection or toggle is the library's doing and is judged
+inline void note_history(const Snap &post, const std::string &op) {
+    if (!history_in_contract()) return;
+    bool caller_defined = op.rfind("Add", 0) == 0 || op.rfind("Set", 0) == 0 || op.rfind("TAdd", 0) == 0 || op.rfind("HAdd", 0) == 0 || op.rfind("THalf", 0) == 0;
+    if (caller_defined && !state_valid_for_c01(post)) {
+        history_in_contract() = false;
+        if (getenv("VERIF_DEBUG_CONTRACT")) fprintf(stderr, "history leaves the contract at %s\n", op.c_str());
+    }
 }
 inline bool state_valid_for_c01(const Snap &s) {
     // the quantifier of C01: no halfface belongs to two live cells
